@@ -50,10 +50,12 @@ pub enum D {
     AdvancePlus1,
     AdvancePlus2,
     ReadAll,
+    /// a Read into a 100-byte buffer: with slices of 65..256 bytes it takes whole slices and stops inside the next one
+    Read100,
 }
 pub const DRAINS: [D; 6] = [D::None, D::Consume1, D::ConsumeAll, D::Advance1, D::AdvanceAll, D::Read2];
 pub const OVER_DRAINS: [D; 4] = [D::ConsumePlus1, D::AdvancePlus1, D::AdvancePlus2, D::ReadAll];
-pub const ALL_DRAINS: [D; 10] = [D::None, D::Consume1, D::ConsumeAll, D::Advance1, D::AdvanceAll, D::Read2, D::ConsumePlus1, D::AdvancePlus1, D::AdvancePlus2, D::ReadAll];
+pub const ALL_DRAINS: [D; 11] = [D::None, D::Consume1, D::ConsumeAll, D::Advance1, D::AdvanceAll, D::Read2, D::ConsumePlus1, D::AdvancePlus1, D::AdvancePlus2, D::ReadAll, D::Read100];
 
 #[derive(Clone, Copy, Debug, PartialEq, Eq, Hash)]
 pub struct Piece {
@@ -393,8 +395,12 @@ fn drain(consumer: &mut ConsumingIovec<'_>, d: D, stable: &[u8], who: &str) -> R
                 fail(Oracle::PrefixLag, format!("[prefix] {}: advance_slices(stable{}) returned {} with {} stable bytes", who, match d { D::Advance1 => " min 1", D::AdvanceAll => " MAX", D::AdvancePlus1 => " + 1", _ => " + 2" }, got, stable.len()))?;
             }
         }
-        D::Read2 | D::ReadAll => {
-            let mut buf = vec![0u8; if d == D::Read2 { 2 } else { stable.len() + 64 }];
+        D::Read2 | D::ReadAll | D::Read100 => {
+            let mut buf = vec![0u8; match d {
+                D::Read2 => 2,
+                D::Read100 => 100,
+                _ => stable.len() + 64,
+            }];
             let got = consumer.read(&mut buf).map_err(|e| format!("{}: read failed: {}", who, e))?;
             if got > stable.len() || buf[..got] != stable[..got] {
                 // Read may legitimately return fewer bytes than asked; what it returns must be the front of the pipe
